@@ -140,3 +140,200 @@ Theorem C10_example_solution : forall stim : nat -> bool,
   csol NetlistSem.sem_lut false order_c (stim_by_id false order_c stim) (val_by_id order_c w) /\
   csol NetlistSem.sem_lut false order_c' (stim_by_id false order_c stim) (val_by_id order_c w).
 Proof. exact CircuitC10Example.example_solution. Qed.
+
+(** * 6. substitute on ARBITRARY implementation circuits (resolve_tlib_cells is a loop of substitute calls).
+    Vocabulary (Model/CircuitSubstSem.v): [substitute_pre c u impl = Some (c4, dl, m)] is Circuit.substitute cut before the final
+    clean-up loop: [c4] = the state after every instance pin is re-attached, [dl] = the nodes collected below unconnected instance
+    outputs, [m] = node_map (implementation node -> its copy; the designated cell -> the instance node [u]).
+    [inst_sol sem zero c u impl m stim v]: the valuation [v] of the HOST's lines satisfies the equation of every host node except the
+    instance, and some solution [w] of the implementation -- input port number k fed with the value of the host line at instance
+    input pin k (an unconnected pin reads [zero]), its state elements fed with the stimulus of their copies -- delivers at output
+    port number k the value of the host line at instance output pin k: "the instance is read as the implementation's function of
+    its input pins".  [SubstSem] / [SubstFull] (Proofs/CircuitSubstMain.v) package the conclusions.
+    Hypotheses, each with a boolean checker that the check evaluates on every compared substitute case: the host is consistent
+    (cinv_b, io_ok_b), the instance is a listed cell that is no port, the implementation is consistent and has the shape that
+    C09_substitute assumes (subst_shape_b: ports are distinct forks, the designated cell is no port, no fork drives a pure output
+    port) plus [pure_ports_b] (a port that is not read inside the implementation has its input line at pin 0), and the known
+    finding D22 is excluded ([d22_free_b]: no unconnected instance input pin leads to pin 2 or 3 of the single reader of its
+    port; trivially true when all input pins are connected).  D22 / D21 / D29 are refuted companions below. *)
+From KV Require Import Model.CircuitSubstSem Model.CircuitSubstSem2.
+From KV Require Proofs.CircuitSubstCheck Proofs.CircuitDanglingSem Proofs.CircuitSubstGlue Proofs.CircuitSubstSemGen
+     Proofs.CircuitSubstMain Proofs.CircuitSubstExample Proofs.CircuitSubstWitness.
+Import Proofs.CircuitDangling Proofs.CircuitDanglingSem Proofs.CircuitSubstGlue Proofs.CircuitSubstMain
+       Proofs.CircuitSubstExample Proofs.CircuitSubstWitness.
+
+(* (a) substitute = substitute_pre followed by the clean-up loop *)
+Theorem C10_substitute_split : forall c u impl,
+  substitute c u impl = match substitute_pre c u impl with Some (c4, dl, m) => cleanup dl c4 | None => None end.
+Proof. exact CircuitSubstCheck.substitute_split. Qed.
+
+(* (b) STRUCTURE, for all inputs: the state before the clean-up is consistent and is described pin by pin by SubstGlue -- every
+   host node but the instance keeps kind, name and pins; the copy of an implementation node carries its kind (a port: a fork),
+   the name instance~node, and at every pin the copy of the implementation line, or the host line of the instance pin the line
+   leads to, or nothing *)
+Theorem C10_substitute_pre_glue : forall c u impl c4 dl m,
+  CInv c -> In u (nodes c) -> is_fork (kind_of c u) = false -> io_mem c u = false ->
+  CInv impl -> IoLive impl -> subst_shape_b impl = true -> pure_ports impl ->
+  substitute_pre c u impl = Some (c4, dl, m) ->
+  CInv c4 /\ (IoLive c -> IoLive c4) /\ SubstGlue c u impl m c4 /\ (forall d, In d dl -> In d (nodes c4)).
+Proof. exact substitute_pre_glue. Qed.
+Theorem C10_pure_ports_b_sound : forall impl, pure_ports_b impl = true -> pure_ports impl.
+Proof. exact pure_ports_b_sound. Qed.
+(* the per-case decision procedure for the same relation is sound (a second, independent route: C10_substitute_pre_function_checked) *)
+Theorem C10_subst_glue_b_sound : forall c u impl m c4, CInv impl ->
+  subst_glue_b c u impl m c4 = true -> SubstGlue c u impl m c4.
+Proof. exact CircuitSubstCheck.subst_glue_b_sound_cinv. Qed.
+
+(* (c) SEMANTICS from the structure, in every value domain in which a buffer copies its operand: the solutions of the result and
+   the valuations of the host in which the instance is read as the implementation's function are the same on the host's lines *)
+Theorem C10_glue_function : forall V (sem : BinNums.N -> V -> V -> V -> V -> V) (zero : V),
+  (forall x a b d, sem (SimOps.lutv "BUF1") x a b d = x) ->
+  forall c u impl m c4,
+  CInv c -> IoLive c -> In u (nodes c) -> io_mem c u = false ->
+  CInv impl -> IoLive impl -> io_forks_b impl = true ->
+  CInv c4 -> IoLive c4 -> SubstGlue c u impl m c4 ->
+  d22_free_b c u impl = true ->
+  (forall stim v, inst_sol sem zero c u impl m stim v ->
+     exists v', csol sem zero c4 stim v' /\ (forall l, In l (lines c) -> v' l = v l)) /\
+  (forall stim v', csol sem zero c4 stim v' -> inst_sol sem zero c u impl m stim v').
+Proof. exact CircuitSubstSemGen.glue_function_gen. Qed.
+
+(* (d) the theorem for the state before the clean-up: ANY subset of connected instance input and output pins.  SubstSem = the
+   result is consistent, io_nodes is unchanged, every host node but the instance survives with its name and kind, the instance
+   keeps its name, host lines survive, every node of the result is such a host node or the copy of an implementation node (kind
+   of the implementation node / fork for a port, name instance~node), every [inst_sol] valuation extends to a solution of the
+   result that agrees on all host lines and reads the same value at every input pin of every host node (ports and state elements
+   in particular), and every solution of the result IS such a valuation *)
+Theorem C10_substitute_pre_function : forall V (sem : BinNums.N -> V -> V -> V -> V -> V) (zero : V),
+  (forall x a b d, sem (SimOps.lutv "BUF1") x a b d = x) ->
+  forall c u impl c4 dl m,
+  CInv c -> IoLive c -> In u (nodes c) -> is_fork (kind_of c u) = false -> io_mem c u = false ->
+  CInv impl -> IoLive impl -> subst_shape_b impl = true -> pure_ports_b impl = true ->
+  substitute_pre c u impl = Some (c4, dl, m) -> d22_free_b c u impl = true ->
+  SubstSem sem zero c u impl m c4 /\ (forall d, In d dl -> In d (nodes c4)).
+Proof. exact @substitute_pre_function. Qed.
+
+(* (e) all instance output pins connected: nothing is cleaned up, the result of substitute is that state *)
+Theorem C10_substitute_function : forall V (sem : BinNums.N -> V -> V -> V -> V -> V) (zero : V),
+  (forall x a b d, sem (SimOps.lutv "BUF1") x a b d = x) ->
+  forall c u impl c4 dl m,
+  CInv c -> IoLive c -> In u (nodes c) -> is_fork (kind_of c u) = false -> io_mem c u = false ->
+  CInv impl -> IoLive impl -> subst_shape_b impl = true -> pure_ports_b impl = true ->
+  substitute_pre c u impl = Some (c4, dl, m) ->
+  d22_free_b c u impl = true -> all_outs_connected_b c u impl = true ->
+  dl = [] /\ substitute c u impl = Some c4 /\ SubstSem sem zero c u impl m c4.
+Proof. exact @substitute_function. Qed.
+
+(* (f) remove_dangling_nodes and the clean-up loop preserve the function (no assumption on the value domain): io_nodes, names and
+   kinds are unchanged, nodes and lines only disappear, no port disappears, surviving nodes keep their input pins and their
+   interface role, every solution restricts to a solution of the result and every solution of the result extends to one of the
+   circuit that agrees on the surviving lines *)
+Theorem C10_remove_dangling_function : forall V (sem : BinNums.N -> V -> V -> V -> V -> V) (zero : V),
+  forall fuel c root c', CInv c -> IoLive c -> Known c root -> List.length (lines c) < fuel ->
+  remove_dangling fuel c root = Some c' ->
+  CInv c' /\ IoLive c' /\ io c' = io c /\
+  (forall x, name_of c' x = name_of c x /\ kind_of c' x = kind_of c x) /\
+  (forall n, In n (nodes c') -> In n (nodes c)) /\ (forall l, In l (lines c') -> In l (lines c)) /\
+  (forall n, In n (nodes c') -> ciface c' n = ciface c n /\ ins_of c' n = ins_of c n) /\
+  (forall n, In n (nodes c) -> ~ In n (nodes c') -> ~ In (Some n) (io c)) /\
+  (forall stim v, csol sem zero c stim v -> csol sem zero c' stim v) /\
+  (forall stim v', csol sem zero c' stim v' -> exists v, csol sem zero c stim v /\ forall l, In l (lines c') -> v l = v' l).
+Proof. exact remove_dangling_sem. Qed.
+Theorem C10_cleanup_function : forall V (sem : BinNums.N -> V -> V -> V -> V -> V) (zero : V),
+  forall dl c4 c', CInv c4 -> IoLive c4 -> (forall d, In d dl -> In d (nodes c4)) -> cleanup dl c4 = Some c' ->
+  DangSemStmt sem zero c4 c'.
+Proof. exact cleanup_sem. Qed.
+
+(* (g) THE GENERAL THEOREM: any successful call, any subset of connected pins (D22 excluded), clean-up included.  SubstFull: the
+   result is consistent, io_nodes is unchanged (names and order of the ports), every node of the result is a host node with its
+   name and kind or the copy of an implementation node, no host port disappears; every valuation of the host in which the instance
+   is read as the implementation's function yields a solution of the result that agrees on all SURVIVING host lines and reads the
+   same values at the input pins of the surviving host nodes, and every solution of the result comes from such a valuation.
+   (Which nodes survive, and in which order the state elements are listed afterwards: D21 / D29 below.) *)
+Theorem C10_substitute_function_full : forall V (sem : BinNums.N -> V -> V -> V -> V -> V) (zero : V),
+  (forall x a b d, sem (SimOps.lutv "BUF1") x a b d = x) ->
+  forall c u impl c',
+  CInv c -> IoLive c -> In u (nodes c) -> is_fork (kind_of c u) = false -> io_mem c u = false ->
+  CInv impl -> IoLive impl -> subst_shape_b impl = true -> pure_ports_b impl = true ->
+  substitute c u impl = Some c' -> d22_free_b c u impl = true ->
+  exists c4 dl m, substitute_pre c u impl = Some (c4, dl, m) /\ cleanup dl c4 = Some c' /\
+                  SubstSem sem zero c u impl m c4 /\ DangSemStmt sem zero c4 c' /\ SubstFull sem zero c u impl m c'.
+Proof. exact @substitute_function_full. Qed.
+(* what SubstFull says, spelled out (so that the statement above can be read without the definition) *)
+Theorem C10_subst_full_unfold : forall V (sem : BinNums.N -> V -> V -> V -> V -> V) (zero : V) c u impl m c',
+  SubstFull sem zero c u impl m c' ->
+  CInv c' /\ IoLive c' /\ io c' = io c /\
+  (forall n, In n (nodes c') ->
+     (In n (nodes c) /\ n <> u /\ name_of c' n = name_of c n /\ kind_of c' n = kind_of c n) \/
+     (exists x, mget x m = Some n /\ In x (nodes impl) /\ kind_of c' n = (if in_ios impl x then FORK else kind_of impl x) /\
+                (n <> u -> name_of c' n = tilde (name_of c u) (name_of impl x)) /\ (n = u -> name_of c' n = name_of c u))) /\
+  (forall n, In n (nodes c) -> n <> u -> ~ In n (nodes c') -> ~ In (Some n) (io c)) /\
+  (forall stim v, inst_sol sem zero c u impl m stim v ->
+     exists v', csol sem zero c' stim v' /\ (forall l, In l (lines c) -> In l (lines c') -> v' l = v l) /\
+                forall n k, In n (nodes c) -> n <> u -> In n (nodes c') -> obs zero c' v' n k = obs zero c v n k) /\
+  (forall stim v', csol sem zero c' stim v' ->
+     exists v, inst_sol sem zero c u impl m stim v /\ (forall l, In l (lines c) -> In l (lines c') -> v l = v' l) /\
+               forall n k, In n (nodes c) -> n <> u -> In n (nodes c') -> obs zero c' v' n k = obs zero c v n k).
+Proof. intros V sem zero c u impl m c' H. exact H. Qed.
+
+(* (h) the same conclusion as (d) with the structure DECIDED on the case at hand instead of proved for all inputs *)
+Theorem C10_substitute_pre_function_checked : forall V (sem : BinNums.N -> V -> V -> V -> V -> V) (zero : V),
+  (forall x a b d, sem (SimOps.lutv "BUF1") x a b d = x) ->
+  forall c u impl c4 dl m,
+  CInv c -> IoLive c -> In u (nodes c) -> io_mem c u = false ->
+  CInv impl -> IoLive impl -> io_forks_b impl = true -> CInv c4 -> IoLive c4 ->
+  substitute_pre c u impl = Some (c4, dl, m) -> subst_glue_b c u impl m c4 = true -> d22_free_b c u impl = true ->
+  SubstSem sem zero c u impl m c4.
+Proof. exact @substitute_pre_function_checked. Qed.
+
+(* (i) the hypotheses are satisfiable on a non-trivial instance: inputs with fan-out, an output that is read inside the
+   implementation, a state element and a reader-less fork inside; 6 host nodes + 11 implementation nodes -> 14 nodes, 15 lines *)
+Theorem C10_substitute_example :
+  CInv ex_host /\ IoLive ex_host /\ In 0 (nodes ex_host) /\ is_fork (kind_of ex_host 0) = false /\ io_mem ex_host 0 = false /\
+  CInv ex_impl /\ IoLive ex_impl /\ subst_shape_b ex_impl = true /\
+  substitute_pre ex_host 0 ex_impl = Some (ex_c4, [], ex_m) /\
+  d22_free_b ex_host 0 ex_impl = true /\ all_outs_connected_b ex_host 0 ex_impl = true /\
+  subst_glue_b ex_host 0 ex_impl ex_m ex_c4 = true /\
+  List.length (nodes ex_host) = 6 /\ List.length (nodes ex_impl) = 11 /\ List.length (nodes ex_c4) = 14 /\
+  List.length (lines ex_c4) = 15 /\ List.length ex_m = 9 /\
+  s_names ex_c4 = ["pi0"; "pi1"; "pi2"; "po0"; "po1"; "u1~q"]%string.
+Proof. exact substitute_example. Qed.
+Theorem C10_substitute_example_pure : pure_ports_b ex_impl = true.
+Proof. vm_compute. reflexivity. Qed.
+
+(* (j) known finding D22, refuted companion: WITHOUT d22_free_b the clause "every solution of the result is an inst_sol valuation"
+   is false -- AND3 with its highest pin on an unconnected instance pin is scheduled as AND2 *)
+Theorem C10_substitute_d22_refuted :
+  CInv d22_host /\ IoLive d22_host /\ In 0 (nodes d22_host) /\ is_fork (kind_of d22_host 0) = false /\ io_mem d22_host 0 = false /\
+  CInv d22_impl /\ IoLive d22_impl /\ subst_shape_b d22_impl = true /\
+  substitute_pre d22_host 0 d22_impl = Some (d22_c4, [], d22_m) /\ substitute d22_host 0 d22_impl = Some d22_c4 /\
+  all_outs_connected_b d22_host 0 d22_impl = true /\ subst_glue_b d22_host 0 d22_impl d22_m d22_c4 = true /\
+  d22_free_b d22_host 0 d22_impl = false /\
+  csol NetlistSem.sem_lut false d22_c4 d22_stim d22_v /\
+  ~ inst_sol NetlistSem.sem_lut false d22_host 0 d22_impl d22_m d22_stim d22_v.
+Proof. exact substitute_d22_refuted. Qed.
+(* (k) known findings D21 and D29, refuted companions of "the state elements and their order are unchanged": the clean-up below an
+   unconnected output removes the implementation's flip-flop (and host nodes that fed only removed logic), and Node.remove's
+   swap-with-last permutes the surviving host state elements *)
+Theorem C10_substitute_d21_refuted :
+  CInv d21_host /\ IoLive d21_host /\ In 0 (nodes d21_host) /\ is_fork (kind_of d21_host 0) = false /\ io_mem d21_host 0 = false /\
+  CInv d21_impl /\ IoLive d21_impl /\ subst_shape_b d21_impl = true /\ d22_free_b d21_host 0 d21_impl = true /\
+  all_outs_connected_b d21_host 0 d21_impl = false /\
+  substitute d21_host 0 d21_impl = Some d21_c' /\
+  s_names d21_host = ["pi0"; "pi1"; "u1"]%string /\ s_names d21_c4 = ["pi0"; "pi1"; "u1"]%string /\
+  s_names d21_c' = ["pi0"; "pi1"]%string /\ ~ In 0 (nodes d21_c').
+Proof. exact substitute_d21_refuted. Qed.
+Theorem C10_substitute_state_order_refuted :
+  CInv d29_host /\ IoLive d29_host /\ In 5 (nodes d29_host) /\ is_fork (kind_of d29_host 5) = false /\ io_mem d29_host 5 = false /\
+  CInv d29_impl /\ IoLive d29_impl /\ subst_shape_b d29_impl = true /\ d22_free_b d29_host 5 d29_impl = true /\
+  substitute d29_host 5 d29_impl = Some d29_c' /\
+  s_names d29_host = ["pi0"; "pi1"; "po0"; "po1"; "po2"; "d1"; "d2"; "d3"]%string /\
+  s_names d29_c' = ["pi0"; "pi1"; "po0"; "po1"; "po2"; "d3"; "d2"]%string.
+Proof. exact substitute_state_order_refuted. Qed.
+(* (l) the additional shape hypothesis pure_ports cannot be dropped: an output port with TWO input pins (the code only looks at pin 0)
+   passes every other hypothesis, the call succeeds, and the description SubstGlue of the result is false *)
+Theorem C10_substitute_pure_ports_needed :
+  CInv cx_host /\ IoLive cx_host /\ In 0 (nodes cx_host) /\ is_fork (kind_of cx_host 0) = false /\ io_mem cx_host 0 = false /\
+  CInv cx_impl /\ IoLive cx_impl /\ subst_shape_b cx_impl = true /\ ~ pure_ports cx_impl /\
+  exists c4 dl m, substitute_pre cx_host 0 cx_impl = Some (c4, dl, m) /\ ~ SubstGlue cx_host 0 cx_impl m c4.
+Proof. exact pure_ports_needed. Qed.
